@@ -43,4 +43,24 @@ def skelInferJustValueExpected : List String :=
 
 theorem skelInferJustValue_expected : skelInferJustValue = skelInferJustValueExpected := rfl
 
+/-- the structure the model of `ToPartial` was written against -/
+def skelToPartialExpected : List String :=
+  ["0:assign:=", "0:assign:=", "0:if", "1:assign=", "1:assign=", "0:if", "1:assign:=", "1:assign=",
+   "1:assign=", "0:return2"]
+
+theorem skelToPartial_expected : skelToPartial = skelToPartialExpected := rfl
+
+/-- the structure the model of `ValidateMessage` was written against -/
+def skelValidateMessageExpected : List String :=
+  ["0:assign:=", "0:assign:=", "0:if", "1:if", "2:call:log.Errorw", "1:elseif",
+   "2:call:metrics.validationCache.Add", "2:return1", "1:else", "2:call:metrics.validationCache.Add",
+   "0:assign:=", "0:if", "1:return1", "0:assign:=", "0:if", "1:return1", "0:if", "1:return1", "0:assign:=",
+   "0:switch", "1:case1", "2:if", "3:return1", "2:if", "3:return1", "1:case1", "2:if", "3:return1", "2:if",
+   "3:return1", "2:if", "3:return1", "1:case1", "2:if", "3:return1", "2:if", "3:return1", "1:case2",
+   "1:default", "2:return1", "0:decl", "0:if", "1:assign=", "0:else", "1:assign=", "0:if", "1:return1",
+   "0:assign:=", "0:if", "1:if", "2:return1", "0:elseif", "1:return1", "0:if", "1:if", "2:call:log.Warnw",
+   "0:return1"]
+
+theorem skelValidateMessage_expected : skelValidateMessage = skelValidateMessageExpected := rfl
+
 end F3.SkelTie.SkelValidate
